@@ -8,7 +8,7 @@
    _gs_next(c, w, D, gabriel); [oget R i] = labels_[i]; [centres R] = cluster_centers_idx_.
    [sq_mat n D]: D is n x n.  [ext_lt] is < on Z + {inf}; [ext_le a b] := not (b < a).
    All theorems hold for every n, every matrix, all weights, cut-offs and shell depths. *)
-From Verif Require Import ListX QuickShift QuickShiftP.
+From Verif Require Import ListX QuickShift QuickShiftP QSSession QSSessionP QSPermP.
 Close Scope Z_scope.
 Open Scope nat_scope.
 
@@ -183,13 +183,10 @@ Proof.
 Qed.
 Print Assumptions C16_weight_remap.
 
-(* Order independence, the part that concerns the algorithm (PARTIAL with respect to the planned
-   C16_permutation: "for a permutation pi of the points, without distance ties among admissible
-   candidates, labels (pi . input) = pi . labels input").  Proved: the outer loop may visit
-   the points in ANY order that covers them all -- the labels are those of `for i in range(n)`.
-   Missing for the full statement: equivariance of next_cut / next_gab / gabriel under renaming
-   the points (rows and columns of D, w, cut permuted), which holds exactly when the index
-   tie-break of C16_next_spec_* never fires; that part is sampled (all n! orders, n <= 7). *)
+(* Order independence, part 1: the outer loop may visit the points in ANY order that covers them
+   all -- the labels are those of `for i in range(n)`.  (Kept under its round-1 name; the full
+   statement -- renaming the points renames the labels -- is C16_permutation_cut /
+   C16_permutation_gab below.) *)
 Theorem C16_permutation_partial :
   forall n D w cut shell order, sq_mat n D -> length w = n ->
     (forall i, In i order -> i < n) -> (forall i, i < n -> In i order) ->
@@ -197,6 +194,99 @@ Theorem C16_permutation_partial :
     fold_left (fit_step n (next_gab D w shell)) order (Some (repeat None n)) = fit_gab D w shell.
 Proof. exact fit_any_order_both. Qed.
 Print Assumptions C16_permutation_partial.
+
+(* Order independence, full statement.  [p] renames the points ([p'] its inverse on 0..n-1); the
+   renamed input is (D', w', cut') with D'[p i][p j] = D[i][j], w'[p i] = w[i], cut'[p i] = cut[i].
+   Under the hypotheses that switch the two index tie-breaks off --
+     [no_dist_ties n D w]: no two strictly heavier points lie at the same distance from a point
+                           (C16_next_spec_*: "the first in index order among equally near ones"),
+     [unique_nn n D]:      every point's nearest neighbour is unique (np.argmin = first minimum) --
+   the labels of the renamed input are the renamed labels:  labels'[p i] = p (labels[i]).
+   With ties the partition legitimately depends on the index order, which is why they are
+   hypotheses.  First the rule-independent core: ANY two successor maps conjugated by p give
+   conjugated labels. *)
+Theorem C16_permutation_of_conjugate_successor :
+  forall n (next next' : nat -> nat) w w' (p : nat -> nat),
+    (forall i, i < n -> next i < n) -> (forall i, i < n -> next i = i \/ (wt w i < wt w (next i))%Z) ->
+    (forall i, i < n -> next' i < n) -> (forall i, i < n -> next' i = i \/ (wt w' i < wt w' (next' i))%Z) ->
+    (forall i, i < n -> p i < n) -> (forall i, i < n -> next' (p i) = p (next i)) ->
+    forall R R', fit_with n next = Some R -> fit_with n next' = Some R' ->
+    forall i, i < n -> oget R' (p i) = option_map p (oget R i).
+Proof. exact fit_with_conj. Qed.
+Print Assumptions C16_permutation_of_conjugate_successor.
+
+Theorem C16_permutation_cut :
+  forall n D D' w w' cut cut' (p p' : nat -> nat) R R',
+    sq_mat n D -> sq_mat n D' -> length w = n -> length w' = n ->
+    (forall i, i < n -> p i < n) -> (forall j, j < n -> p' j < n) -> (forall j, j < n -> p (p' j) = j) ->
+    (forall i j, i < n -> j < n -> dget D' (p i) (p j) = dget D i j) ->
+    (forall i, i < n -> wt w' (p i) = wt w i) ->
+    (forall i, i < n -> nth (p i) cut' 0%Z = nth i cut 0%Z) ->
+    no_dist_ties n D w -> unique_nn n D ->
+    fit_cut D w cut = Some R -> fit_cut D' w' cut' = Some R' ->
+    forall i, i < n -> oget R' (p i) = option_map p (oget R i).
+Proof. exact fit_cut_perm. Qed.
+Print Assumptions C16_permutation_cut.
+
+(* Gabriel rule (D symmetric): the graph, the shells and the successor map are all renamed by p *)
+Theorem C16_permutation_gab :
+  forall n D D' w w' shell (p p' : nat -> nat) R R',
+    sq_mat n D -> sq_mat n D' -> length w = n -> length w' = n ->
+    (forall i, i < n -> p i < n) -> (forall j, j < n -> p' j < n) ->
+    (forall j, j < n -> p (p' j) = j) -> (forall i, i < n -> p' (p i) = i) ->
+    (forall i j, i < n -> j < n -> dget D' (p i) (p j) = dget D i j) ->
+    (forall i, i < n -> wt w' (p i) = wt w i) ->
+    (forall a b, a < n -> b < n -> dget D a b = dget D b a) -> no_dist_ties n D w ->
+    fit_gab D w shell = Some R -> fit_gab D' w' shell = Some R' ->
+    forall i, i < n -> oget R' (p i) = option_map p (oget R i).
+Proof. exact fit_gab_perm. Qed.
+Print Assumptions C16_permutation_gab.
+
+(* ... and the Gabriel graph itself is renamed (no tie hypothesis needed) *)
+Theorem C16_gabriel_permutation :
+  forall n D D' (p p' : nat -> nat),
+    sq_mat n D -> sq_mat n D' ->
+    (forall i, i < n -> p i < n) -> (forall j, j < n -> p' j < n) ->
+    (forall j, j < n -> p (p' j) = j) -> (forall i, i < n -> p' (p i) = i) ->
+    (forall i j, i < n -> j < n -> dget D' (p i) (p j) = dget D i j) ->
+    (forall a b, a < n -> b < n -> dget D a b = dget D b a) ->
+    forall i j, i < n -> j < n -> bget (gabriel D') (p i) (p j) = bget (gabriel D) i j.
+Proof. exact gabriel_perm. Qed.
+Print Assumptions C16_gabriel_permutation.
+
+(* non-vacuity of the permutation theorems: four points on a line at 0,1,3,7 (all six distances
+   distinct), weights 1,3,2,4, cut-offs 5: labels 1,1,1,3; reversed input (p i = 3 - i): labels
+   0,2,2,2 = the reversed renamed labels; every hypothesis of C16_permutation_cut/_gab holds *)
+Example C16_permutation_nonvacuous :
+  let D := [[None; Some 1; Some 9; Some 49]; [Some 1; None; Some 4; Some 36];
+            [Some 9; Some 4; None; Some 16]; [Some 49; Some 36; Some 16; None]]%Z in
+  let D' := [[None; Some 16; Some 36; Some 49]; [Some 16; None; Some 4; Some 9];
+             [Some 36; Some 4; None; Some 1]; [Some 49; Some 9; Some 1; None]]%Z in
+  let w := [1; 3; 2; 4]%Z in let w' := [4; 2; 3; 1]%Z in
+  let p := fun i => 3 - i in
+  sq_mat 4 D /\ sq_mat 4 D' /\
+  (forall i j, i < 4 -> j < 4 -> dget D' (p i) (p j) = dget D i j) /\
+  (forall i, i < 4 -> wt w' (p i) = wt w i) /\
+  (forall j, j < 4 -> p (p j) = j) /\
+  (forall a b, a < 4 -> b < 4 -> dget D a b = dget D b a) /\
+  no_dist_ties 4 D w /\ unique_nn 4 D /\
+  fit_cut D w [5; 5; 5; 5]%Z = Some (map Some [1; 1; 1; 3]) /\
+  fit_cut D' w' [5; 5; 5; 5]%Z = Some (map Some [0; 2; 2; 2]) /\
+  fit_gab D w 1 = Some (map Some [1; 1; 1; 3]) /\ fit_gab D' w' 1 = Some (map Some [0; 2; 2; 2]).
+Proof.
+  cbv zeta.
+  split; [split; [reflexivity|repeat constructor]|].
+  split; [split; [reflexivity|repeat constructor]|].
+  split; [intros i j Hi Hj; destruct i as [|[|[|[|i]]]]; try lia; destruct j as [|[|[|[|j]]]]; try lia; reflexivity|].
+  split; [intros i Hi; destruct i as [|[|[|[|i]]]]; try lia; reflexivity|].
+  split; [intros j Hj; lia|].
+  split; [intros a b Ha Hb; destruct a as [|[|[|[|a]]]]; try lia; destruct b as [|[|[|[|b]]]]; try lia; reflexivity|].
+  split; [intros c j j' Hc Hj Hj'; destruct c as [|[|[|[|c]]]]; try lia; destruct j as [|[|[|[|j]]]]; try lia;
+          destruct j' as [|[|[|[|j']]]]; try lia; vm_compute; intros; try reflexivity; discriminate|].
+  split; [intros c j Hc Hj; destruct c as [|[|[|[|c]]]]; try lia; destruct j as [|[|[|[|j]]]]; try lia;
+          vm_compute; intros; try reflexivity; discriminate|].
+  repeat split; vm_compute; reflexivity.
+Qed.
 
 (* non-vacuity: six points on a line at 0,1,2,10,11,12 with weights 1,5,3,2,9,4 (squared
    distances); cut-off 5 gives the basins {0,1,2} -> 1 and {3,4,5} -> 4, a huge cut-off
@@ -220,3 +310,109 @@ Example C16_nonvacuous :
 Proof.
   cbv zeta. split; [split; [reflexivity|repeat constructor]|]. repeat split; vm_compute; reflexivity.
 Qed.
+
+(* ---------------------------------------------------------------------------------------------
+   Sessions (Model/QSSession.v): estimator objects as a state machine.  [qrun cd S ops] runs a
+   history of calls -- New e c s2 sh: est[e] = QuickShift(cuts[c] | None, sh, scale = s2/2);
+   Fit e d: est[e].fit(X_d, w_d); SetShell e sh: est[e].gabriel_shell = sh; SetW d w: the caller
+   rewrites w_d in place; Read e: est[e].labels_ -- from state S (the caller's cut-off arrays
+   [s_cuts], data sets [s_data], estimator objects [s_est]); [cd] = len(cell) or None.
+   [reconf e o]: o is New e .. or SetShell e ..;  [fit_obs r] = what fit shows (labels_,
+   cluster_centers_idx_) or that it raised. *)
+
+(* no call ever writes the caller's cut-off arrays, whatever the history *)
+Theorem C16_session_cuts_unchanged :
+  forall cd S ops, s_cuts (fst (qrun cd S ops)) = s_cuts S.
+Proof. exact session_cuts_unchanged. Qed.
+Print Assumptions C16_session_cuts_unchanged.
+
+(* ... and the caller's data change through the caller's own writes only *)
+Theorem C16_session_data_caller_only :
+  forall cd S ops, s_data (fst (qrun cd S ops)) = fold_left caller_step ops (s_data S).
+Proof. exact session_data_caller_only. Qed.
+Print Assumptions C16_session_data_caller_only.
+
+(* A fit is a FRESH fit.  Let est[e] be constructed from the caller's cut-off array c with scale
+   s2/2 after an arbitrary history [pre] (which may have handed the same array to any number of
+   constructors, fitted, refitted, ...), followed by an arbitrary history [mid] that does not
+   re-configure est[e] (other estimators built from the same array, fits and refits of est[e] on
+   any data, weights rewritten, rejected calls ...).  Then est[e].fit on data d shows exactly
+   [quickshift] (Model/QuickShift.v, to which every theorem above applies) of d's current distance
+   matrix and weights for the cut-offs  ORIGINAL array c * (s2/2)^2. *)
+Theorem C16_session_fit_is_fresh_fit_cut :
+  forall cd S0 pre mid e c s2 sh d,
+    e < length (s_est S0) ->
+    forallb (fun o => negb (reconf e o)) mid = true ->
+    let S := fst (qrun cd S0 (pre ++ New e (Some c) s2 sh :: mid)) in
+    let q := get_data S d in
+    dim_mismatch cd (q_dim q) = false ->
+    snd (qstep cd S (Fit e d)) = fit_obs (quickshift (q_D q) (q_w q) (Cut (nth c (s_cuts S0) []) s2)).
+Proof. exact session_fit_fresh_cut. Qed.
+Print Assumptions C16_session_fit_is_fresh_fit_cut.
+
+Theorem C16_session_fit_is_fresh_fit_gab :
+  forall cd S0 pre mid e s2 sh d,
+    e < length (s_est S0) ->
+    forallb (fun o => negb (reconf e o)) mid = true ->
+    let S := fst (qrun cd S0 (pre ++ New e None s2 (Some sh) :: mid)) in
+    let q := get_data S d in
+    dim_mismatch cd (q_dim q) = false ->
+    snd (qstep cd S (Fit e d)) = fit_obs (quickshift (q_D q) (q_w q) (Gab sh)).
+Proof. exact session_fit_fresh_gab. Qed.
+Print Assumptions C16_session_fit_is_fresh_fit_gab.
+
+(* gabriel_shell is read when fit runs: after est[e].gabriel_shell = sh' (est[e] without cut-offs)
+   and any history not re-configuring est[e], the fit is the fresh fit for shell sh' *)
+Theorem C16_session_fit_after_setshell :
+  forall cd S0 pre mid e sh' d,
+    e < length (s_est S0) ->
+    forallb (fun o => negb (reconf e o)) mid = true ->
+    let S1 := fst (qrun cd S0 pre) in
+    e_cut (get_est S1 e) = None ->
+    let S := fst (qrun cd S0 (pre ++ SetShell e sh' :: mid)) in
+    let q := get_data S d in
+    dim_mismatch cd (q_dim q) = false ->
+    snd (qstep cd S (Fit e d)) = fit_obs (quickshift (q_D q) (q_w q) (Gab sh')).
+Proof. exact session_fit_fresh_setshell. Qed.
+Print Assumptions C16_session_fit_after_setshell.
+
+(* the two rejection branches (constructor with neither rule; fit on data whose dimension is not
+   the cell's) raise and leave the whole state -- estimators, their labels_, the caller's arrays --
+   as it was *)
+Theorem C16_session_rejections :
+  forall cd S e s2 d,
+    qstep cd S (New e None s2 None) = (S, ObsErr) /\
+    (dim_mismatch cd (q_dim (get_data S d)) = true -> qstep cd S (Fit e d) = (S, ObsErr)).
+Proof. exact session_rejections. Qed.
+Print Assumptions C16_session_rejections.
+
+(* labels_ read after a successful fit is that fit's result *)
+Theorem C16_session_read_after_fit :
+  forall cd S e d R c,
+    e < length (s_est S) ->
+    qstep cd S (Fit e d) = (fst (qstep cd S (Fit e d)), ObsFit R c) ->
+    snd (qstep cd (fst (qstep cd S (Fit e d))) (Read e)) = ObsRead (Some R).
+Proof. exact session_read_after_fit. Qed.
+Print Assumptions C16_session_read_after_fit.
+
+(* non-vacuity: the line of C16_nonvacuous; ONE caller array of cut-offs 5/8 ... is handed with
+   scale 2 (s2 = 4) to est[0], then to est[1]; est[0] is fitted, est[1] is fitted twice with a
+   rejected constructor call in between: both see the cut-offs 40 * 16 / 32 = 20 (basins of C16_nonvacuous
+   for cut-off 20: 0,1,2 -> 1 and 3,4,5 -> 4), and the array is as it was *)
+Example C16_session_nonvacuous :
+  let D := [[None; Some 1; Some 4; Some 100; Some 121; Some 144];
+            [Some 1; None; Some 1; Some 81; Some 100; Some 121];
+            [Some 4; Some 1; None; Some 64; Some 81; Some 100];
+            [Some 100; Some 81; Some 64; None; Some 1; Some 4];
+            [Some 121; Some 100; Some 81; Some 1; None; Some 1];
+            [Some 144; Some 121; Some 100; Some 4; Some 1; None]]%Z in
+  let S0 := mkState [[40; 40; 40; 40; 40; 40]%Z] [mkData 1 D [1; 5; 3; 2; 9; 4]%Z] [no_est; no_est] in
+  let ops := [New 0 (Some 0) 4%Z None; New 1 (Some 0) 4%Z (Some 2); Fit 0 0; Fit 1 0;
+              New 1 None 4%Z None; Fit 1 0; Read 1] in
+  let R := map Some [1; 1; 1; 4; 4; 4] in
+  snd (qrun None S0 ops) =
+    [ObsNew (Some [640; 640; 640; 640; 640; 640]%Z); ObsNew (Some [640; 640; 640; 640; 640; 640]%Z);
+     ObsFit R [1; 4]; ObsFit R [1; 4]; ObsErr; ObsFit R [1; 4]; ObsRead (Some R)] /\
+  s_cuts (fst (qrun None S0 ops)) = s_cuts S0 /\
+  forallb (fun o => negb (reconf 0 o)) [New 1 (Some 0) 4%Z (Some 2); Fit 0 0; Fit 1 0] = true.
+Proof. cbv zeta. repeat split; vm_compute; reflexivity. Qed.
